@@ -180,8 +180,19 @@ func runOracleTally(r *hx.R, n int, w *hx.W, _ []string) error {
 			wl = append(wl, asset.Pair(allPairs[perm[i]]))
 		}
 		next := append([]asset.Pair{}, wl...)
-		if r.Chance(1, 5) { // params whitelist differs from the store
+		switch r.Pick(10) { // params whitelist differs from the store
+		case 0, 1:
 			next = append(next, asset.Pair(allPairs[perm[nW]]))
+		case 2: // a pair is de-listed (and, half of the time, another one listed instead): the store has to lose it at the period end
+			// whether or not it was voted on and whether or not it reached quorum
+			next = append([]asset.Pair{}, wl[1:]...)
+			if r.Chance(1, 2) || len(next) == 0 {
+				next = append(next, asset.Pair(allPairs[perm[nW]]))
+			}
+		case 3: // two de-listed, one listed
+			if len(wl) > 2 {
+				next = append(append([]asset.Pair{}, wl[2:]...), asset.Pair(allPairs[perm[nW]]))
+			}
 		}
 		params.Whitelist = next
 		k.Params.Set(ctx, params)
